@@ -94,7 +94,9 @@ def tree_records(hists, fam, lat, unis_for):
     """histories that differ only in their last event become ONE record: common prefix + alternative last events"""
     groups = collections.OrderedDict()
     for h in hists:
-        groups.setdefault(json.dumps(h[:-1]), []).append(h[-1])
+        alts = groups.setdefault(json.dumps(h[:-1]), [])
+        if h[-1] not in alts:
+            alts.append(h[-1])
     recs = []
     for i, (pk, alts) in enumerate(groups.items()):
         prefix = json.loads(pk)
@@ -268,7 +270,7 @@ def run(tier, seed):
     quick = tier == "quick"
     sel_bfs = {("map", "itv"): 16, ("map", "bool"): 10, ("pset", "itv"): 4, ("dset", "itv"): 3} if quick else {}
     sel_rich = {("map", "itv"): 12, ("map", "bool"): 10, ("pset", "itv"): 8, ("dset", "itv"): 6} if quick else {}
-    nsim = 350 if quick else 4000
+    nsim = 350 if quick else 3000
     with ThreadPoolExecutor(max_workers=6) as pool:
         # ---- direction B: TLC generates (in parallel, one worker each)
         gb = {fl: pool.submit(gen_bfs, ck, "Bfs", fl[0], fl[1], 3, sel_bfs.get(fl, 1), seed) for fl in FAMS}
@@ -285,7 +287,7 @@ def run(tier, seed):
             return [U4[(i + seed) % len(U4)]]
 
         def uni_rich(i, prefix):
-            return [U4[(i + seed) % len(U4)]] if quick else [U4[(i + seed) % len(U4)], U4[(i + seed + 3) % len(U4)]]
+            return [U4[(i + seed) % len(U4)]]
 
         recs = []
         for (fam, lat), fut in gb.items():
